@@ -56,9 +56,9 @@ CONF = {
         "exhaustive_note": "enumeration part is complete for the stated bound",
     },
     "C11": {
-        "rule": "(a) rapid histories (4..30 ops) of role transactions by all accounts with new-holder strings {universe account, fresh valid, upper-case bech32, wrong prefix, bad checksum, empty, long, non-ASCII} interleaved with all other transaction types; lifecycle automaton vs exported roles and pending-owner slot after every transaction; (b) bounded-exhaustive closure: all 324 role states over 3 accounts x every role action by every account; non-trivial = history with a supersession, an accept after the slot was cleared, or an accept attempt by the current owner",
-        "quick": {"rapid": [("TestC11", 500, 2)], "plain": ["TestC11Closure"]},
-        "thorough": {"rapid": [("TestC11", 8000, 16)], "plain": ["TestC11Closure"]},
+        "rule": "(a) rapid histories (4..30 ops) of role transactions by all accounts with new-holder strings {universe account, fresh valid, upper-case bech32, wrong prefix, bad checksum, empty, long, non-ASCII} interleaved with all other transaction types; lifecycle automaton vs exported roles and pending-owner slot after every transaction; (b) bounded-exhaustive closure: all 324 role states over 3 accounts x every role action by every account, and once more over three accounts whose 20/32/32-byte addresses agree in their first 20 bytes; non-trivial = history with a supersession, an accept after the slot was cleared, or an accept attempt by the current owner",
+        "quick": {"rapid": [("TestC11", 500, 2)], "plain": ["TestC11Closure", "TestC11ClosureOdd"]},
+        "thorough": {"rapid": [("TestC11", 8000, 16)], "plain": ["TestC11Closure", "TestC11ClosureOdd"]},
     },
     "C12": {
         "rule": "rapid histories (4..30 ops): flag states installed by genesis (all four) and moved by pause/unpause transactions of all accounts; the eight user-facing flows with otherwise valid generated inputs; all 18 admin actions; table oracle (S/R blocks all eight; B/M blocks deposit, deposit-with-caller, replace-deposit, module receive only) in both directions, flag queries after every transaction; all 32 cells must be visited in every run; non-trivial = (flag state, flow, outcome) cell; distinct by cell",
